@@ -52,12 +52,15 @@ struct ValueGen {
     }
     Node record(int variant) {
         Node o = Node::mk(Node::Object);
-        // member order varies between records on purpose
+        // member order varies between records on purpose, and so does the member count: a record may lack any
+        // member (also the one a group= attribute names), may be empty, and may carry a nested list
         static const char *keys[] = {"year", "month", "name", "v"};
         int                order[4] = {0, 1, 2, 3};
         if (variant & 1) std::swap(order[0], order[2]);
         if (variant & 2) std::swap(order[1], order[3]);
-        for (int i = 0; i < 4; i++) {
+        size_t keep = 4;
+        if (r.chance(1, 4)) keep = (size_t)r.below(5); // ragged records: 0..4 leading members only
+        for (size_t i = 0; i < keep; i++) {
             int k = order[i];
             if (k == 3 && r.chance(1, 4)) continue;
             Node v;
@@ -68,6 +71,12 @@ struct ValueGen {
             else
                 v = scalar();
             o.get_or_add(A(keys[k])) = v;
+        }
+        if (r.chance(1, 2)) {
+            Node   tags = Node::mk(Node::Array);
+            size_t n    = (size_t)r.below(5);
+            for (size_t i = 0; i < n; i++) tags.items.push_back(r.chance(1, 2) ? Node::mku(r.below(50)) : scalar());
+            o.get_or_add(A("tags")) = tags;
         }
         return o;
     }
@@ -370,7 +379,23 @@ struct TemplateGen {
                 int         kind = 0;
                 bool        group = false, sort = false;
                 uint64_t    which = r.below(8);
-                if (!loop_vars.empty() && loop_kind.back() == 2 && r.chance(2, 3)) {
+                if (!loop_vars.empty() && r.chance(1, 3)) {
+                    // a set rooted at the value of ANY enclosing loop (grand-parents included), possibly a member of it
+                    size_t a = (size_t)r.below(loop_vars.size());
+                    set      = loop_vars[a];
+                    kind     = 0;
+                    if (loop_kind[a] == 1) {
+                        if (r.chance(2, 3)) set += "[tags]";
+                        sort = r.chance(1, 2);
+                    } else if (loop_kind[a] == 2) {
+                        if (r.chance(1, 3)) {
+                            set += "[" + std::to_string(r.below(3)) + "]";
+                            kind = 1;
+                        } else
+                            kind = 1; // items of a group are records
+                        sort = r.chance(1, 3);
+                    }
+                } else if (!loop_vars.empty() && loop_kind.back() == 2 && r.chance(2, 3)) {
                     set  = loop_vars.back();
                     kind = 0;
                 } else if (!loop_vars.empty() && loop_kind.back() == 1 && r.chance(1, 3)) {
@@ -398,7 +423,10 @@ struct TemplateGen {
                 std::vector<std::string> atts;
                 if (!set.empty()) atts.push_back(std::string("set=") + q + set + q);
                 atts.push_back(std::string("value=") + q + name + q);
-                if (group) atts.push_back(std::string("group=") + q + (r.chance(4, 5) ? "year" : "name") + q);
+                if (group) {
+                    static const char *gk[] = {"year", "year", "year", "name", "month", "v", "tags", "nope"};
+                    atts.push_back(std::string("group=") + q + gk[r.below(8)] + q);
+                }
                 if (sort) atts.push_back(std::string("sort=") + q + (r.chance(1, 2) ? "ascend" : "descend") + q);
                 if (r.chance(1, 4)) std::swap(atts[0], atts.back());
                 for (auto &a : atts) s += " " + a;
